@@ -201,7 +201,7 @@ static Hash128 hash_key(const std::string& s) {
 }
 
 constexpr int MAXD = 12;
-struct Node { MState st; int32_t prefix; uint8_t len; uint8_t hist[MAXD]; };
+struct Node { MState st; int32_t prefix; uint8_t len; uint8_t stut; uint8_t hist[MAXD]; };  // stut: reached by an operation that left the model state unchanged
 struct Rec { uint8_t type; Hash128 h; Node n; };  // type 1 successor, 2 end-of-worker stats
 struct Stats { long transitions = 0, ops = 0, fenced = 0, foreign = 0, lenient = 0, violations = 0, disabled = 0, selfcheck_fail = 0, incomplete = 0; };
 struct Flight { volatile int node, opidx, alive; };
@@ -257,6 +257,7 @@ struct Explorer {
       const Node& n = frontier[j];
       if ((j / (size_t)workers) % 64 == 0 && elapsed() > deadline_s) { s.incomplete = 1; break; }
       Model base; base.st = n.st; base.guards = guards;
+      const std::string basekey = base.key();
       if (n.len == 0 && !p.prefixes[(size_t)n.prefix].empty()) {
         // the configuration prefix itself is a history: validate it before anything is built on it
         fl[id].node = (int)j; fl[id].opidx = -1;
@@ -316,6 +317,13 @@ struct Explorer {
         memcpy(rec.n.hist, n.hist, n.len); rec.n.hist[n.len] = (uint8_t)x;
         bool merge = (int)rec.n.len >= p.du;
         std::string key = next.key();
+        // An operation that leaves the model state unchanged (a rejected call, a query-like step) may still have
+        // changed hidden implementation state. Such a "stutter" successor is kept as a node of its own - once -
+        // so that every operation is also explored right after every such no-op, instead of being merged away.
+        if (key == basekey) {
+          if (n.stut >= 1) continue;
+          rec.n.stut = 1; key += "#stutter"; key.push_back((char)x);
+        }
         if (!merge) { key.append((const char*)&rec.n.prefix, sizeof rec.n.prefix); key.append((const char*)rec.n.hist, rec.n.len); key.push_back((char)rec.n.len); }
         rec.h = hash_key(key);
         if (!local.insert(rec.h).second) continue;
